@@ -19,14 +19,14 @@ def Plain (p : Path) : Prop := ∀ t ∈ p, hasIdxSuffix t = false
 
 /-! ## helpers on `optMapM` -/
 
-theorem optMapM_length {g : Addr → Option Node} : ∀ {xs : List Addr} {ns : List Node},
+theorem optMapM_length' {g : Addr → Option Node} : ∀ {xs : List Addr} {ns : List Node},
     optMapM g xs = some ns → ns.length = xs.length
   | [], ns, h => by simp only [optMapM, Option.some.injEq] at h; subst h; rfl
   | x :: xs, ns, h => by
     obtain ⟨n, ns', _, hxs, rfl⟩ := optMapM_cons_some.mp h
-    simp only [List.length_cons, optMapM_length hxs]
+    simp only [List.length_cons, optMapM_length' hxs]
 
-theorem optMapM_getElem? {g : Addr → Option Node} : ∀ {xs : List Addr} {ns : List Node} {i : Nat} {c : Addr},
+theorem optMapM_getElem?' {g : Addr → Option Node} : ∀ {xs : List Addr} {ns : List Node} {i : Nat} {c : Addr},
     optMapM g xs = some ns → xs[i]? = some c → ∃ dc, g c = some dc ∧ ns[i]? = some dc
   | [], _, _, _, _, hc => by simp at hc
   | x :: xs, ns, i, c, h, hc => by
@@ -38,7 +38,7 @@ theorem optMapM_getElem? {g : Addr → Option Node} : ∀ {xs : List Addr} {ns :
       exact ⟨n, hn, rfl⟩
     | succ j =>
       simp only [List.getElem?_cons_succ] at hc ⊢
-      exact optMapM_getElem? hxs hc
+      exact optMapM_getElem?' hxs hc
 
 theorem optMapM_take {g : Addr → Option Node} : ∀ {xs : List Addr} {ns : List Node} (i : Nat),
     optMapM g xs = some ns → optMapM g (xs.take i) = some (ns.take i)
@@ -62,7 +62,7 @@ theorem optMapM_drop {g : Addr → Option Node} : ∀ {xs : List Addr} {ns : Lis
       simp only [List.drop_succ_cons]
       exact optMapM_drop j hxs
 
-theorem optMapM_set {g g' : Addr → Option Node} : ∀ {xs : List Addr} {ns : List Node} {i : Nat} {c : Addr} {y : Node},
+theorem optMapM_set' {g g' : Addr → Option Node} : ∀ {xs : List Addr} {ns : List Node} {i : Nat} {c : Addr} {y : Node},
     optMapM g xs = some ns → xs[i]? = some c → g' c = some y →
     (∀ j x, xs[j]? = some x → j ≠ i → g' x = g x) → optMapM g' xs = some (ns.set i y)
   | [], _, _, _, _, _, hc, _, _ => by simp at hc
@@ -84,7 +84,7 @@ theorem optMapM_set {g g' : Addr → Option Node} : ∀ {xs : List Addr} {ns : L
       simp only [List.set_cons_succ]
       refine optMapM_cons_some.mpr ⟨n, _, ?_, ?_, rfl⟩
       · rw [hoth 0 x (by simp) (by omega)]; exact hn
-      · exact optMapM_set hxs hc hy (fun k z hz hk => hoth (k + 1) z (by simpa using hz) (by omega))
+      · exact optMapM_set' hxs hc hy (fun k z hz hk => hoth (k + 1) z (by simpa using hz) (by omega))
 
 /-- replace the abstraction of ONE member (unique keys), all others unchanged -/
 theorem optMapKvs_update {g g' : Addr → Option Node} {t : String} {c : Addr} {y : Node} :
@@ -147,7 +147,7 @@ theorem absH_step {F : Nat} {h : Heap} {a : Addr} {t : String} {d : Node} (hp : 
       exact optMapKvs_get?_none hmm hn
   | list xs =>
     obtain ⟨ns, hmm, rfl⟩ := hm
-    have hlen := optMapM_length hmm
+    have hlen := optMapM_length' hmm
     simp only [Ptr.step]
     cases ha : atoi t with
     | none => exact ⟨fun c hc' => (by cases hc'), fun _ => rfl⟩
@@ -157,7 +157,7 @@ theorem absH_step {F : Nat} {h : Heap} {a : Addr} {t : String} {d : Node} (hp : 
       · simp only [hcond, and_self, if_true]
         constructor
         · intro c hc'
-          exact optMapM_getElem? hmm hc'
+          exact optMapM_getElem?' hmm hc'
         · intro hn
           have : xs.length ≤ i.toNat := List.getElem?_eq_none_iff.mp hn
           omega
@@ -274,7 +274,7 @@ theorem abs_write_at {h : Heap} {par : Addr} {cell' : Cell} {newN : Node} :
           simp only [ha] at hstep
           split at hstep
           · rename_i hcond
-            obtain ⟨dc, hdc, hgetn⟩ := optMapM_getElem? hmk hstep
+            obtain ⟨dc, hdc, hgetn⟩ := optMapM_getElem?' hmk hstep
             have ih := abs_write_at ts F' c dc hmc hts hdc hrest hnew'
             have hi : ((i.toNat : Nat) : Int) = i := Int.toNat_of_nonneg hcond.1
             have hsetAt : Ytk.Patch.setAt (.list ns) (t :: ts) newN =
@@ -282,7 +282,7 @@ theorem abs_write_at {h : Heap} {par : Addr} {cell' : Cell} {newN : Node} :
               Ytk.Patch.setAt_cons_list ts newN (by rw [ha, hi]) hgetn
             rw [hsetAt, absH, hget]
             simp only
-            rw [optMapM_set hmk hstep ih (fun j x hx hj => absH_write_frame cell'
+            rw [optMapM_set' hmk hstep ih (fun j x hx hj => absH_write_frame cell'
               (hoth j x hx (by rw [ha]; intro e; apply hj; have := Option.some.inj e; omega)) F')]
           · cases hstep
 
@@ -303,7 +303,7 @@ theorem plain_last {p : Path} (hp : p ≠ []) (h : Plain p) : hasIdxSuffix (last
 theorem not_reach_kid {h : Heap} {rank : Addr → Nat} (hr : h.RankedBy rank) {par k : Addr} {c : Cell}
     (hg : h.get? par = some c) (hk : k ∈ c.kids) : ¬ Reach h k par := by
   intro hreach
-  have h1 := rank_le_of_reach hr hreach
+  have h1 := rank_le_of_reach' hr hreach
   have h2 := hr par c hg k hk
   omega
 
@@ -384,7 +384,7 @@ theorem doAddH_abs {h : Heap} {root : Addr}
       cases atoi (lastSegment path) <;> exact ⟨hres, rfl⟩
     | list xs =>
       obtain ⟨ns, hmk, rfl⟩ := hmm
-      have hlen := optMapM_length hmk
+      have hlen := optMapM_length' hmk
       cases ha : atoi (lastSegment path) with
       | none => exact ⟨hdF, rfl⟩
       | some idx =>
@@ -413,7 +413,7 @@ theorem doAddH_abs {h : Heap} {root : Addr}
                 optMapM_drop idx.toNat hbase, rfl⟩)]
           exact ⟨abs_write_at (parent path) (F + Fv + 1) root d hm hplp hdF hsp hnew, rfl⟩
 
-theorem optMapKvs_erase {g : Addr → Option Node} (k : String) :
+theorem optMapKvs_erase' {g : Addr → Option Node} (k : String) :
     ∀ {kvs : List (String × Addr)} {m : List (String × Node)},
       optMapKvs g kvs = some m → optMapKvs g (AMap.erase kvs k) = some (AMap.erase m k)
   | [], m, h => by simp only [optMapKvs, Option.some.injEq] at h; subst h; rfl
@@ -422,7 +422,7 @@ theorem optMapKvs_erase {g : Addr → Option Node} (k : String) :
     simp only [AMap.erase]
     split
     · exact hxs
-    · exact optMapKvs_cons_some.mpr ⟨n, _, hn, optMapKvs_erase k hxs, rfl⟩
+    · exact optMapKvs_cons_some.mpr ⟨n, _, hn, optMapKvs_erase' k hxs, rfl⟩
 
 theorem optMapM_set_same {g : Addr → Option Node} {v : Addr} {nv : Node} (hv : g v = some nv) :
     ∀ {xs : List Addr} {ns : List Node} (i : Nat),
@@ -473,12 +473,12 @@ theorem doRemoveH_abs {h : Heap} {root : Addr}
             some (.cont (AMap.erase m (lastSegment path))) := by
           rw [hFp, absH, get?_write_self h _ (get?_lt hcell)]
           simp only
-          rw [optMapKvs_erase _ (kvs_abs_after_write (hkids _ hcell) _ (Nat.le_refl _) hmk)]
+          rw [optMapKvs_erase' _ (kvs_abs_after_write (hkids _ hcell) _ (Nat.le_refl _) hmk)]
         have hres := abs_write_at (parent path) F root d hm hplp hd hsp hnew
         cases atoi (lastSegment path) <;> exact ⟨hres, rfl⟩
       | list xs =>
         obtain ⟨ns, hmk, rfl⟩ := hmm
-        have hlen := optMapM_length hmk
+        have hlen := optMapM_length' hmk
         cases ha : atoi (lastSegment path) with
         | none => exact ⟨hd, rfl⟩
         | some idx =>
@@ -559,7 +559,7 @@ theorem doReplaceH_abs {h : Heap} {root : Addr}
         cases atoi (lastSegment path) <;> exact ⟨hres, rfl⟩
       | list xs =>
         obtain ⟨ns, hmk, rfl⟩ := hmm
-        have hlen := optMapM_length hmk
+        have hlen := optMapM_length' hmk
         cases ha : atoi (lastSegment path) with
         | none => exact ⟨hdF, rfl⟩
         | some idx =>
